@@ -217,6 +217,41 @@ def deriveProg (ctx salt tPriv : Bytes) (n : Nat) : Prog (Outcome Bytes) :=
   askE (.kdf ctx (kdfInput salt (xorContext material ctx)) n) fun out =>
   .done (.ok out)
 
+/-- Sequential composition: run `p`; on `ok b` continue with `k b`, an error / panic of `p` is the
+result (`if err := f(…); err != nil { return nil, nil, err }`). -/
+def Prog.andThen : Prog (Outcome Bytes) → (Bytes → Prog (Outcome β)) → Prog (Outcome β)
+  | .done o, k => bindO o k
+  | .ask r c, k => .ask r fun a => (c a).andThen k
+
+/-- The `crypto.PrivKey` interface value the caller passes to `DeriveKey` / `DeriveEd25519Key`,
+as `crypto.PrivKeyToStdKey` classifies it. -/
+inductive KeyArg where
+  /-- the nil interface, or a nil `*Ed25519PrivateKey` inside the interface: `ErrNilPrivateKey` -/
+  | nil
+  /-- any other implementation of `crypto.PrivKey`: `ErrBadKeyType` -/
+  | foreign
+  /-- an `*Ed25519PrivateKey` with these raw bytes (seed ‖ public key) -/
+  | ed (raw : Bytes)
+deriving Repr, DecidableEq
+
+/-- `DeriveKey(context, salt, privKey, out)` for ANY `crypto.PrivKey` value: the first statement
+`spKey, err := crypto.PrivKeyToStdKey(privKey)` turns a nil or foreign key into an error. -/
+def deriveArgProg (ctx salt : Bytes) (k : KeyArg) (n : Nat) : Prog (Outcome Bytes) :=
+  match k with
+  | .nil => .done .err
+  | .foreign => .done .err
+  | .ed raw => deriveProg ctx salt raw n
+
+/-- `DeriveEd25519Key(context, salt, privKey)`:
+`seed := make([]byte, ed25519.SeedSize); if err := DeriveKey(context, salt, privKey, seed); err != nil { return nil, nil, err };
+key := ed25519.NewKeyFromSeed(seed); return crypto.KeyPairFromStdKey(&key)`.
+The result is the raw private key `seed ‖ public key` (its last 32 bytes are the returned public key). -/
+def deriveEdProg (ctx salt : Bytes) (k : KeyArg) : Prog (Outcome Bytes) :=
+  (deriveArgProg ctx salt k 32).andThen fun seed =>
+  panicIf (seed.length ≠ 32) <|                            -- ed25519.NewKeyFromSeed: bad seed length
+  askE (.edPub seed) fun pub =>
+  .done (.ok (seed ++ pub))
+
 /-- The same loop WITHOUT the guard (the code before the fix): `none` = divide by zero. -/
 def xorContextUnguarded (material ctx : Bytes) : Option Bytes :=
   if h0 : ctx.length = 0 then (if material.isEmpty then some material else none)
@@ -225,6 +260,8 @@ def xorContextUnguarded (material ctx : Bytes) : Option Bytes :=
 def encrypt (P : Prims) (tPub ctx msg : Bytes) : Outcome Bytes := (encryptProg tPub ctx msg).run P
 def decrypt (P : Prims) (tPriv ctx ct : Bytes) : Outcome Bytes := (decryptProg tPriv ctx ct).run P
 def deriveKey (P : Prims) (ctx salt tPriv : Bytes) (n : Nat) : Outcome Bytes := (deriveProg ctx salt tPriv n).run P
+def deriveKeyArg (P : Prims) (ctx salt : Bytes) (k : KeyArg) (n : Nat) : Outcome Bytes := (deriveArgProg ctx salt k n).run P
+def deriveEd25519 (P : Prims) (ctx salt : Bytes) (k : KeyArg) : Outcome Bytes := (deriveEdProg ctx salt k).run P
 /-- the ECDH material `DeriveKey` feeds (after the xor) into the KDF -/
 def deriveMaterial (P : Prims) (ctx tPriv : Bytes) : Outcome Bytes := (materialProg ctx tPriv fun m => .done (.ok m)).run P
 
